@@ -5,7 +5,9 @@
 //! token lists / typed values (`c07_util::model`), and reads everything back through
 //! `SegmentReader::inverted_index(field)` (`c07_util::verify`).
 //!
-//! Streams: `main` (plans small / boundary / big / heavy_tf / long_terms), `jsonlong`,
+//! Streams: `vint` (doc-id deltas, term frequencies, positions on the length boundaries of the
+//! variable-length integer encoding, see `c07_util::vintedge`), `main` (plans small / boundary /
+//! big / heavy_tf / long_terms), `jsonlong`,
 //! `interleave` (documents whose values are not grouped by field), `collide` (distinct terms whose
 //! in-memory keys have the same 32-bit hash in the indexing-time term table) and `arena` (the
 //! term table alone, fed with such keys).
@@ -15,6 +17,7 @@ mod c07_util;
 use c07_util::collide::{self, Alphabet, Template};
 use c07_util::model::*;
 use c07_util::verify::*;
+use c07_util::vintedge;
 use serde_json::json;
 use tantivy::schema::IndexRecordOption;
 use tvmon::report::*;
@@ -1277,16 +1280,33 @@ fn run_plan(case: u64, rng: &mut Rng, rep: &mut Report, plan: &str, thorough: bo
         "collide" => plan_collide(rng, rep),
         _ => plan_long_terms(rng),
     };
+    verify_and_account(case, rng, rep, plan, res);
+}
+
+/// stream `vint`: values on the length boundaries of the variable-length integer encoding
+fn vint_case(thorough: bool) -> impl Fn(u64, &mut Rng, &mut Report) + Sync {
+    move |case, rng, rep| {
+        let shape = vintedge::shape_of(case, thorough, rng);
+        let res = vintedge::plan(shape, rng, rep, thorough);
+        if let Some(built) = verify_and_account(case, rng, rep, shape.name(), res) {
+            vintedge::observe_reach(rep, &built);
+        }
+    }
+}
+
+/// reads the segment back, compares it with the model and books the case; returns the segment
+/// when it could be compared (exactly one segment)
+fn verify_and_account(case: u64, rng: &mut Rng, rep: &mut Report, plan: &str, res: PlanResult) -> Option<Built> {
     let (built, planted) = match res {
         Ok(x) => x,
         Err(e) => {
             let what = e.split(':').next().unwrap_or("?").to_string();
             rep.violation(format!("api-error:{what}"), json!({"plan": plan, "err": e}));
-            return;
+            return None;
         }
     };
     let effort = Effort { max_terms_full: 300, seeks_per_term: 12 };
-    let Some(stats) = verify_segment(rep, rng, &built, plan, &planted, &effort) else { return };
+    let stats = verify_segment(rep, rng, &built, plan, &planted, &effort)?;
     rep.evals(stats.fields);
     rep.count("segments", 1);
     rep.count(&format!("segments:{plan}"), 1);
@@ -1308,6 +1328,7 @@ fn run_plan(case: u64, rng: &mut Rng, rep: &mut Report, plan: &str, thorough: bo
             })).collect::<Vec<_>>()
         }));
     }
+    Some(built)
 }
 
 fn main_case(thorough: bool) -> impl Fn(u64, &mut Rng, &mut Report) + Sync {
@@ -1419,7 +1440,26 @@ fn main() {
     if !collide::self_test() {
         harness_fatal("c07: the generator's murmurhash2 does not reproduce the reference vectors");
     }
-    let mut rep = run_cases(&ctx, "main", n_main, main_case(thorough));
+    // first, so that its few heavy cases (2M-document segment, 2M-token documents) start at once
+    let n_vint = ctx.scale(vintedge::CASES_FOR_FULL_GRID as usize, 1610) as u64;
+    let mut rep = run_cases(&ctx, "vint", n_vint, vint_case(thorough));
+    // reach is part of the verdict: a full-size run that did not put every boundary value it is
+    // built for through the index is inconclusive (scaled-down sanitizer re-runs are exempt)
+    if ctx.replay.is_none() && n_vint >= vintedge::CASES_FOR_FULL_GRID {
+        let missing: Vec<String> = vintedge::required_reach()
+            .into_iter()
+            .filter(|(set, m)| !rep.sets.get(*set).is_some_and(|s| s.contains(m)))
+            .map(|(set, m)| format!("{set}:{m}"))
+            .collect();
+        if !missing.is_empty() {
+            rep.harness_error(format!(
+                "stream vint did not reach {} of the boundary values it is built to reach: {}",
+                missing.len(),
+                missing.join(", ")
+            ));
+        }
+    }
+    rep.merge(run_cases(&ctx, "main", n_main, main_case(thorough)));
     rep.merge(run_cases(&ctx, "jsonlong", n_long, jsonlong_case));
     rep.merge(run_cases(&ctx, "interleave", ctx.scale(200, 3000) as u64, |case, rng, rep| {
         run_plan(case, rng, rep, "interleave", thorough)
@@ -1431,14 +1471,15 @@ fn main() {
     simple_finish(
         &ctx,
         rep,
-        "case = one generated segment (plans: small all-types, df-boundary, big sparse, heavy tf/positions, long terms, json long tokens, interleave = documents of 1..600 values added in an order not grouped by field, collide = distinct terms of equal length whose in-memory keys have the same 32-bit hash and differ only in a window placed relative to the 16-byte chunks of the key comparison) written by the real IndexWriter and read back per field; an evaluation = one (segment, field) read-back: term dictionary (num_terms, stream order, keys vs public Term constructors, TermInfo), total_num_tokens, field norms, and for the selected terms doc_freq + postings under Basic/WithFreqs/WithFreqsAndPositions read by scan, by seek/advance programs, by the block cursor (scan, seek, rank, reset). Non-trivial = the field has a posting list of >= 128 documents or records positions. Distinct = field configuration x df class x tf class x log2(#terms) x log2(#docs); for collide also field kind x window class x place of the differing bytes. Stream arena: the indexing-time term table alone (tantivy_stacker::ArenaHashMap) fed with such equal-hash keys, compared with a BTreeMap (previous value handed to the updater, len, iter, get).",
+        "case = one generated segment (plans: small all-types, df-boundary, big sparse, heavy tf/positions, long terms, json long tokens, vint = every value written as a variable-length integer on the way into the index - doc-id delta to the term's previous document / first doc id, term frequency, position + 1, position delta - placed at 2^k-1, 2^k, 2^k+1 for k = 7, 14, 21 (positions also 28): pre-tokenized values with explicit positions, multi-valued fields whose lengths and gaps add up, plain and JSON strings that long, documents of 2^21-1 / 2^21 / 2^21+1 equal tokens in fields with frequencies only and with positions, and segments of 2^21 + a few hundred mostly empty documents with terms of every record option that far apart; the sets vint_*_reached list the boundary values the model says were reached, a full-size run missing one it is built for is inconclusive; interleave = documents of 1..600 values added in an order not grouped by field, collide = distinct terms of equal length whose in-memory keys have the same 32-bit hash and differ only in a window placed relative to the 16-byte chunks of the key comparison) written by the real IndexWriter and read back per field; an evaluation = one (segment, field) read-back: term dictionary (num_terms, stream order, keys vs public Term constructors, TermInfo), total_num_tokens, field norms, and for the selected terms doc_freq + postings under Basic/WithFreqs/WithFreqsAndPositions read by scan, by seek/advance programs, by the block cursor (scan, seek, rank, reset). Non-trivial = the field has a posting list of >= 128 documents or records positions. Distinct = field configuration x df class x tf class x log2(#terms) x log2(#docs); for collide also field kind x window class x place of the differing bytes. Stream arena: the indexing-time term table alone (tantivy_stacker::ArenaHashMap) fed with such equal-hash keys, compared with a BTreeMap (previous value handed to the updater, len, iter, get).",
         ctx.scale(50, 800),
         &[
             "text is generated as words joined by single spaces; the default/raw/whitespace tokenizers are modelled by their documented rules (split, RemoveLongFilter(40), MAX_TOKEN_LEN; a JSON text token must also fit the 65535-byte in-memory key after field id + path id + type byte, i.e. <= 65526 bytes, else it is dropped)",
             "one indexing thread, NoMergePolicy and one commit give exactly one segment whose doc ids are the insertion order; cases where the memory budget cut the segment are skipped and counted",
             "term_freq is only compared when the requested option has frequencies; for terms recorded without frequencies (Basic fields, typed JSON values) the documented value 1 is expected",
             "positions() is not called on typed JSON terms of a field with positions (no positions exist; tantivy's merger avoids the call as well)",
-            "doc-id gaps above ~21 bits cannot be produced through the public indexing path (they need > 2^21 documents in one segment)",
+            "vint: the next encoding-length boundary after 2^21 is 2^28; a doc-id delta or a term frequency of 2^28 needs a segment of 268M documents / a document of 268M tokens and is out of reach of both tiers (positions reach it through pre-tokenized values). Quick builds two segments of 2^21+600..900 documents, thorough also segments of up to 3*2^21 documents with random gaps above 2^21 (4-byte class)",
+            "vint: which values pass through which encoder (doc delta, term frequency only in fields without positions and only once a later document of the term arrives, position + 1) was read from src/postings/recorder.rs; it only steers the input and the vint_*_reached bookkeeping, the oracle is the same model read-back as everywhere else",
             "collide/arena: the generator re-implements murmurhash2 (seed of the murmurhash32 crate, checked against its reference vectors at start) and assumes the in-memory key layout field id (4 bytes BE) ++ value bytes, for JSON text terms field id ++ path id (4 bytes BE, numbered in order of first appearance) ++ 's' ++ token; this only steers the input - were it wrong the planted terms would not collide and the stream would be an ordinary small-segment workload (the arena stream does not depend on the layout)",
             "interleave: TantivyDocument keeps values in the order in which they were added, and the values of one field are indexed in that order (position of a value = end of the previous value of the same field + 1)",
         ],
